@@ -83,6 +83,12 @@ func splitReads(tail string) (string, []string) {
 func (e *SpecEnv) readsArgs(sf *SpecFn, n *SpecEnv) (sorts, terms []string) {
 	fc := e.fc
 	for _, name := range sf.Reads {
+		if strings.HasPrefix(name, "reach(") && strings.HasSuffix(name, ")") {
+			// `reads reach(T)`: every component a type-safe function can reach through a value of type T (ext_reach.go)
+			rs, rt := e.reachArgs(sf, name[len("reach("):len(name)-1], n)
+			sorts, terms = append(sorts, rs...), append(terms, rt...)
+			continue
+		}
 		if strings.HasSuffix(name, "[..]") {
 			// `reads p[..]`: only the element block of the slice parameter p (finer than the whole component of its element
 			// type: blocks allocated later by the caller do not disturb the value of the function)
@@ -422,6 +428,9 @@ func (fr *Frame) mapRangeNext(x *ssa.Next, rng SV, mt *types.Map, st *State, g s
 	// the iteration ends only when every present key has been produced
 	fc.assume(g, implies(and(not(ok), not(eq(rng.t, nilPtr))),
 		fmt.Sprintf("(forall ((vj %s)) (! (=> (select %s vj) (select %s vj)) :pattern ((select %s vj)) :pattern ((select %s vj))))", ks, hasArr, V, hasArr, V)))
+	// a nil map has no entry (the has-component of the nil pointer is never written: a MapUpdate on nil is a safe:mapwrite failure), so
+	// "every present key was produced" also holds, vacuously, for a nil map (added for C02: validateUTXO ranges over sigs[index])
+	fc.assume(g, implies(eq(rng.t, nilPtr), fmt.Sprintf("(forall ((vj %s)) (! (not (select %s vj)) :pattern ((select %s vj))))", ks, hasArr, hasArr)))
 	fc.setComp(st, vk, vs, ite(ok, app("store", V, k, "true"), V))
 	fc.assumes["trusted model: a map range yields every present key exactly once (no insertion of new keys in the loop: safe:maprange obligations)"] = true
 	fr.vals[x] = SV{typ: x.Type(), tuple: []SV{{t: ok, typ: boolT}, {t: k, typ: mt.Key()}, {t: val, typ: mt.Elem()}}}
